@@ -8,8 +8,43 @@ structure SInv (s : Sorter) : Prop where
   sorted : Sorted tierLess s.sortedTiers
   look : ∀ tk, tk ∈ s.sortedTiers → ∃ t, mget s.tiers tk.name = some t ∧ t.key = tk
   nodup : (mkeys s.tiers).Nodup
+  /-- conversely every tier of the map has its key in the tier btree -/
+  has : ∀ n t, mget s.tiers n = some t → t.key ∈ s.sortedTiers
 
-theorem SInv.init : SInv {} := ⟨by simp, by simp [Sorted], by simp, by simp [mkeys]⟩
+theorem SInv.init : SInv {} := ⟨by simp, by simp [Sorted], by simp, by simp [mkeys], by simp⟩
+
+theorem tier_comparable {a b : TierKey} (h : a.name ≠ b.name) : tierLess a b = true ∨ tierLess b a = true := by
+  have hs := swo_tierLess
+  cases hab : tierLess a b with
+  | true => exact Or.inl rfl
+  | false =>
+    cases hba : tierLess b a with
+    | true => exact Or.inr rfl
+    | false =>
+      exfalso
+      -- incomparable keys have equal rank and equal name
+      obtain ⟨an, av, ao⟩ := a
+      obtain ⟨bn, bv, bo⟩ := b
+      simp only at h
+      cases av <;> cases bv <;> cases ao <;> cases bo <;> simp [tierLess] at hab hba
+      all_goals first
+        | (rcases str_lt_trichotomy an bn with x | x | x
+           · exact absurd x (by simpa using hab)
+           · exact h x
+           · exact absurd x (by simpa using hba))
+        | skip
+      all_goals
+        rename_i x y
+        by_cases hxy : x = y
+        · subst hxy
+          simp at hab hba
+          rcases str_lt_trichotomy an bn with z | z | z
+          · exact absurd z (String.not_lt.2 hab)
+          · exact h z
+          · exact absurd z (String.not_lt.2 hba)
+        · have hyx : ¬ y = x := fun e => hxy e.symm
+          simp [hxy, hyx] at hab hba
+          omega
 
 theorem mget_of_mem' {κ β : Type} [DecidableEq κ] {m : List (κ × β)} (hn : (mkeys m).Nodup) {k : κ} {v : β} (h : (k, v) ∈ m) :
     mget m k = some v := by
@@ -32,7 +67,14 @@ theorem mget_of_mem' {κ β : Type} [DecidableEq κ] {m : List (κ × β)} (hn :
 theorem SInv.setTier {s : Sorter} (h : SInv s) (t t' : TierSt) (ht : mget s.tiers t.name = some t)
     (hn : t'.name = t.name) (hk : t'.key = t.key) (hs : Sorted polKVLess t'.sorted) :
     SInv { s with tiers := mset t.name t' s.tiers } := by
-  refine ⟨?_, h.sorted, ?_, mkeys_mset_nodup h.nodup⟩
+  refine ⟨?_, h.sorted, ?_, mkeys_mset_nodup h.nodup, ?_⟩
+  rotate_left 2
+  · intro n x hx
+    simp only [mget_mset] at hx
+    by_cases hnn : n = t.name
+    · simp only [hnn, if_true, Option.some.injEq] at hx
+      subst hx; rw [hk]; exact h.has _ _ ht
+    · simp only [hnn, if_false] at hx; exact h.has n x hx
   · intro n x hx
     simp only [mget_mset] at hx
     by_cases hnn : n = t.name
@@ -53,7 +95,17 @@ theorem SInv.setTier {s : Sorter} (h : SInv s) (t t' : TierSt) (ht : mget s.tier
 /-- dropping a tier together with its key -/
 theorem SInv.dropTier {s : Sorter} (h : SInv s) (t : TierSt) (ht : mget s.tiers t.name = some t) :
     SInv { tiers := mdel t.name s.tiers, sortedTiers := btDelete tierLess t.key s.sortedTiers } := by
-  refine ⟨?_, sorted_btDelete _ _ h.sorted, ?_, mkeys_mdel_nodup h.nodup⟩
+  refine ⟨?_, sorted_btDelete _ _ h.sorted, ?_, mkeys_mdel_nodup h.nodup, ?_⟩
+  rotate_left 2
+  · intro n x hx
+    simp only [mget_mdel] at hx
+    by_cases hnn : n = t.name
+    · simp [hnn] at hx
+    · simp only [hnn, if_false] at hx
+      rw [mem_btDelete_iff swo_tierLess _ _ _ h.sorted]
+      refine ⟨h.has n x hx, tier_comparable ?_⟩
+      simp only [TierSt.key]
+      rw [(h.tiers n x hx).1]; exact fun e => hnn e.symm
   · intro n x hx
     simp only [mget_mdel] at hx
     by_cases hnn : n = t.name
@@ -76,7 +128,18 @@ theorem SInv.dropTier {s : Sorter} (h : SInv s) (t : TierSt) (ht : mget s.tiers 
 theorem SInv.addTier {s : Sorter} (h : SInv s) (t : TierSt) (hnew : mget s.tiers t.name = none)
     (hs : Sorted polKVLess t.sorted) :
     SInv { tiers := mset t.name t s.tiers, sortedTiers := btInsert tierLess t.key s.sortedTiers } := by
-  refine ⟨?_, sorted_btInsert swo_tierLess _ _ h.sorted, ?_, mkeys_mset_nodup h.nodup⟩
+  refine ⟨?_, sorted_btInsert swo_tierLess _ _ h.sorted, ?_, mkeys_mset_nodup h.nodup, ?_⟩
+  rotate_left 2
+  · intro n x hx
+    simp only [mget_mset] at hx
+    by_cases hnn : n = t.name
+    · simp only [hnn, if_true, Option.some.injEq] at hx
+      subst hx; exact mem_btInsert_self _ _
+    · simp only [hnn, if_false] at hx
+      rw [mem_btInsert_iff swo_tierLess _ _ _ h.sorted]
+      refine Or.inr ⟨h.has n x hx, tier_comparable ?_⟩
+      simp only [TierSt.key]
+      rw [(h.tiers n x hx).1]; exact fun e => hnn e.symm
   · intro n x hx
     simp only [mget_mset] at hx
     by_cases hnn : n = t.name
